@@ -547,12 +547,12 @@ def report_violation(pid, P, tier, seed, t0, work, h, broken, new_issues, stats_
         known_open = [k for k in load_json(os.path.join(VERIF, "known_findings.json"), {"findings": []})["findings"]
                       if k.get("status") == "known" and pid in k.get("properties", [k.get("property")])]
 
-        def explained(stream, verdict):
+        def is_explained(stream, verdict):
             return any(stream in (k.get("streams") or []) and re.search(k.get("verdict_regex") or r"$^", verdict) for k in known_open)
 
         def mk_preds(stream):
-            new_spec = lambda x: "spec" in x[1] and not (x[1] == "spec" and explained(stream, x[5]))
-            any_new = lambda x: x[1] not in ("spec", "known") or (x[1] == "spec" and not explained(stream, x[5]))
+            new_spec = lambda x: "spec" in x[1] and not (x[1] == "spec" and is_explained(stream, x[5]))
+            any_new = lambda x: x[1] not in ("spec", "known") or (x[1] == "spec" and not is_explained(stream, x[5]))
             return new_spec, any_new
         spec_cases = [(s, o, i) for (s, o, i) in new_issues if any(mk_preds(s)[0](x) for x in i)]
         pick = min(spec_cases or new_issues, key=lambda t: len(t[1]))
